@@ -21,7 +21,7 @@ HINT = "metadata.version-hint.text"
 # yield granularity: the protocol-significant operations (DESIGN.md C01 quantifier)
 # ---------------------------------------------------------------------------------------------------
 def protocol_yield_filter(op: str, path: str, phase: tuple) -> bool:
-    if op in ("LockTry", "LockFlock", "LockRel", "Fence", "Sleep", "Tick"):
+    if op in ("LockTry", "LockFlock", "LockRel", "Fence", "Sleep", "Tick", "Land"):
         return True
     if path.endswith(HINT) and op in ("read_file", "read_file_with_etag", "write_file", "write_file_cas"):
         return True
@@ -281,37 +281,80 @@ def run_case(scratch: str, case: Dict[str, Any], chooser_factory: Callable[[S.Sc
         store.conflict_code = case.get("s3_conflict", "412")
         sf = case.get("s3_fault")
         if sf:
-            # one request-level fault at the boto surface: the nth <op> on a key of class <cls> issued by an actor is
-            # answered by a transient error BEFORE ("before": not applied) or AFTER its effect ("after": applied, response lost)
+            # one request-level fault at the boto surface: the nth <op> on a key of class <cls> issued by an actor (by the
+            # actor named <actor>, when given) is answered by a transient error
+            #   "before"   : BEFORE its effect (the request is not applied),
+            #   "after"    : AFTER its effect (applied, the response is lost), or
+            #   "inflight" : the client gives up on the request while it is still IN FLIGHT: it reaches the store later, at a
+            #                scheduling point of its own (actor "L", operation "Land"), and its precondition is evaluated THEN.
+            # The log entry of the storage call is annotated with "s3_fault": <when>.
             seen_sf = {"n": 0, "fired": False}
 
             def _sf_exc() -> Exception:
-                from botocore.exceptions import ClientError, ReadTimeoutError
-                if sf.get("exc") == "500":
-                    return ClientError({"Error": {"Code": "InternalError", "Message": "injected"}, "ResponseMetadata": {"HTTPStatusCode": 500}}, "PutObject")
+                from botocore.exceptions import ClientError, ConnectionClosedError, EndpointConnectionError, ReadTimeoutError
+                kind = sf.get("exc", "timeout")
+
+                def _ce(code: str, status: int) -> Exception:
+                    return ClientError({"Error": {"Code": code, "Message": "injected"}, "ResponseMetadata": {"HTTPStatusCode": status}}, "PutObject")
+                if kind == "500":
+                    return _ce("InternalError", 500)
+                if kind == "503":
+                    return _ce("SlowDown", 503)
+                if kind == "reqtimeout":
+                    return _ce("RequestTimeout", 400)
+                if kind == "connclosed":
+                    return ConnectionClosedError(endpoint_url="mem://s3")
+                if kind == "connect":
+                    return EndpointConnectionError(endpoint_url="mem://s3")
+                if kind == "oserror":
+                    return ConnectionResetError(104, "injected connection reset")
                 return ReadTimeoutError(endpoint_url="mem://s3")
 
             def _sf_match(op: str, key: str) -> bool:
                 if seen_sf["fired"] or sc.me() is None or op != sf.get("op", "put_object"):
                     return False
+                if sf.get("actor") is not None and sc.me().name != sf["actor"]:
+                    return False
                 if path_class(key.split("/", 1)[1] if "/" in key else key) != sf.get("cls", "hint"):
                     return False
                 return True
+
+            def _sf_fire(op: str, key: str) -> bool:
+                if _sf_match(op, key):
+                    seen_sf["n"] += 1
+                    if seen_sf["n"] == sf.get("nth", 1):
+                        seen_sf["fired"] = True
+                        if sc.log and sc.log[-1].get("actor") == sc.me().name:
+                            sc.log[-1]["s3_fault"] = sf.get("when", "after")
+                        return True
+                return False
             if sf.get("when", "after") == "after":
                 def after_hook(op: str, key: str) -> None:
-                    if _sf_match(op, key):
-                        seen_sf["n"] += 1
-                        if seen_sf["n"] == sf.get("nth", 1):
-                            seen_sf["fired"] = True
-                            raise _sf_exc()
+                    if _sf_fire(op, key):
+                        raise _sf_exc()
                 store.after_hook = after_hook
+            elif sf.get("when") == "inflight":
+                def inflight_hook(op: str, key: str, kw: Dict[str, Any]) -> None:
+                    if _sf_fire(op, key):
+                        sender = sc.me().name
+                        req = (key, kw.get("Body", b""), kw.get("IfMatch"), kw.get("IfNoneMatch"))
+
+                        def land_body() -> Any:
+                            e = sc.yield_point("Land", req[0].split("/", 1)[1] if "/" in req[0] else req[0])
+                            e["for"] = sender
+                            try:
+                                store.apply_put(*req)
+                                e["result"] = "applied"
+                            except Exception:       # noqa: BLE001 - the store refused the late request; nobody is listening
+                                e["result"] = "refused"
+                            return e["result"]
+                        sc.spawn("L", land_body)
+                        raise _sf_exc()
+                store.hook = inflight_hook
             else:
                 def before_hook(op: str, key: str, _kw: Dict[str, Any]) -> None:
-                    if _sf_match(op, key):
-                        seen_sf["n"] += 1
-                        if seen_sf["n"] == sf.get("nth", 1):
-                            seen_sf["fired"] = True
-                            raise _sf_exc()
+                    if _sf_fire(op, key):
+                        raise _sf_exc()
                 store.hook = before_hook
 
         def factory(tp: str) -> Any:
@@ -349,6 +392,8 @@ def run_case(scratch: str, case: Dict[str, Any], chooser_factory: Callable[[S.Sc
         # frozen clock: every commit of the run happens in the same millisecond as the last setup commit
         sc.clock_ms = 1_700_000_000_000 + 10 * nsnap + (0 if clock == "frozen" else 10)
         sc.log.clear()
+        if store is not None:
+            store.history.clear()           # from here on: what the store applied during the actors' run
         t0 = datashard.load_table(root)
         res.initial = read_table_independent(reader_root)
         shared = t0 if case.get("topology", "separate") == "shared" else None
@@ -446,9 +491,16 @@ class Nonconforming(Exception):
     pass
 
 
-def project(res: CaseResult, nactors: int, cas: bool = False, lease: bool = False) -> Tuple[List[Tuple[int, str]], Dict[str, int], List[str]]:
+def project(res: CaseResult, nactors: int, cas: bool = False, lease: bool = False,
+            faults: bool = False) -> Tuple[List[Tuple[int, str]], Dict[str, int], List[str]]:
     """Returns (events as (actor index, Gallina evkind text)), metadata-file name -> vid, notes).
-    Raises Nonconforming on a storage call the projection does not know."""
+    Raises Nonconforming on a storage call the projection does not know.
+
+    faults=True: the events of Model/FlipFault.v are produced as well (texts starting with "X"; every other text is an
+    evkind to be wrapped in XE): a pointer write that raised an injected request-level error (log annotation "s3_fault")
+    is `XFlipErr <applied>`, the lock release that follows it (commit()'s finally) is `XUnwind`; a request whose client gave
+    up while it was in flight stays in flight in the model (its sender's lock release is a lapse of its lease) until the
+    "Land" entry: `XFlipErr <applied>; XUnwind` there."""
     vids: Dict[str, int] = {res.initial["pointer"]: 0}
     events: List[Tuple[int, str]] = []
     notes: List[str] = []
@@ -457,8 +509,21 @@ def project(res: CaseResult, nactors: int, cas: bool = False, lease: bool = Fals
     lock_ev: Dict[str, int] = {}               # actor -> index into events of its latest ELockTry (moved to the flock when fine-grained)
     n_known = 0
     holder: Optional[str] = None
+    erring: Dict[str, bool] = {}               # actor -> its pointer write raised, the exception has not left commit() yet
+    inflight: Dict[str, Any] = {}              # actor -> its pointer write is in flight although its client gave up ("sent" | "released")
     for idx, e in enumerate(res.log):
         a = e["actor"]
+        if faults and e["op"] == "Land":
+            owner = str(e.get("for"))
+            if not inflight.get(owner):
+                raise Nonconforming(f"a request lands at log[{idx}] that nobody has in flight")
+            events.append((int(owner[1:]), "XFlipErr true" if e["result"] == "applied" else "XFlipErr false"))
+            if inflight[owner] == "released":
+                events.append((int(owner[1:]), "XUnwind"))
+            else:
+                erring[owner] = True            # it lands before its sender has left commit(): the release is still to come
+            inflight[owner] = False
+            continue
         if not a.startswith("A"):
             continue
         ai = int(a[1:])
@@ -521,13 +586,31 @@ def project(res: CaseResult, nactors: int, cas: bool = False, lease: bool = Fals
         elif op == "Fence":
             events.append((ai, f"EFence {'true' if result else 'false'}"))
         elif op in ("write_file", "write_file_cas") and pcs == "hint":
-            ok = result == "ok"
-            events.append((ai, f"EFlip {'true' if ok else 'false'}"))
+            flt = e.get("s3_fault") if faults else None
+            if flt == "inflight":
+                inflight[a] = "sent"
+            elif flt in ("before", "after"):
+                events.append((ai, "XFlipErr true" if flt == "after" else "XFlipErr false"))
+                erring[a] = True
+            else:
+                ok = result == "ok"
+                events.append((ai, f"EFlip {'true' if ok else 'false'}"))
         elif op == "LockRel":
             _close_validate(events, pending_validate, a, False)
-            if holder == a:
-                holder = None
-            events.append((ai, "ERelease"))
+            if erring.get(a):
+                erring[a] = False
+                if holder == a:
+                    holder = None
+                events.append((ai, "XUnwind"))
+            elif inflight.get(a):
+                inflight[a] = "released"
+                if lease and holder == a:
+                    holder = None
+                    events.append((ai, "ESteal"))
+            else:
+                if holder == a:
+                    holder = None
+                events.append((ai, "ERelease"))
         elif op in ("exists", "read_file", "open_file", "write_file", "delete_file", "DataW", "DataR", "Sleep",
                     "get_size", "get_modified_time", "list_files", "open_seekable"):
             if pcs.startswith("other:"):
